@@ -31,23 +31,23 @@ type l17Map[P curves.Point[P, B, S], B algebra.PrimeFieldElement[B], S algebra.P
 // that form a qualified pair with the holder are present; the stored Paillier key of a peer is that peer's own key
 // and the stored ciphertexts decrypt (under the peer's secret key) to the peer's share components mod q; the shard
 // survives CBOR. input != nil: the DKG must hand back the base shard it was given.
-func checkL17[P curves.Point[P, B, S], B algebra.PrimeFieldElement[B], S algebra.PrimeFieldElement[S]](x *engine.X, g grp[P, S], tag, where string, p *policy.Policy, ids []sharing.ID, ac accessstructures.Monotone, shards l17Map[P, B, S], input shardMap[P, S], exact bool) []byte {
+func checkL17[P curves.Point[P, B, S], B algebra.PrimeFieldElement[B], S algebra.PrimeFieldElement[S]](x *engine.X, g grp[P, S], st site, p *policy.Policy, ids []sharing.ID, ac accessstructures.Monotone, shards l17Map[P, B, S], input shardMap[P, S], exact bool) []byte {
 	base := shardMap[P, S]{}
 	for _, id := range ids {
 		if shards[id] == nil {
-			x.Failf(tag+"/output/missing", "%s: party %d has no shard", where, id)
+			st.failf(x, "output/missing", "party %d has no shard", id)
 			return nil
 		}
 		base[id] = &shards[id].BaseShard
 	}
-	pk := checkShards(x, g, tag, where, p, ids, ac, base)
+	pk := checkShards(x, g, st, p, ids, ac, base)
 	for i, id := range ids {
 		sh := shards[id]
 		if input != nil && !input[id].Equal(&sh.BaseShard) {
-			x.Failf(tag+"/base-changed", "%s: party %d: the DKG output does not embed the base shard it was given", where, id)
+			st.failf(x, "base-changed", "party %d: the DKG output does not embed the base shard it was given", id)
 		}
 		if !sh.PublicKey().Value().Equal(base[ids[0]].PublicKeyValue()) {
-			x.Failf(tag+"/agree/ecdsa-pk", "%s: party %d: ECDSA public key differs from the group key", where, id)
+			st.failf(x, "agree/ecdsa-pk", "party %d: ECDSA public key differs from the group key", id)
 		}
 		for j, peer := range ids {
 			if i == j {
@@ -58,7 +58,7 @@ func checkL17[P curves.Point[P, B, S], B algebra.PrimeFieldElement[B], S algebra
 			cts, okC := sh.EncryptedShares().Get(peer)
 			x.Case("")
 			if okK != want || okC != want {
-				x.Failf(tag+"/aux/peers", "%s: party %d stores key=%v ciphertexts=%v for peer %d, the pair is qualified=%v", where, id, okK, okC, peer, want)
+				st.failf(x, "aux/peers", "party %d stores key=%v ciphertexts=%v for peer %d, the pair is qualified=%v", id, okK, okC, peer, want)
 				continue
 			}
 			if !want {
@@ -66,47 +66,47 @@ func checkL17[P curves.Point[P, B, S], B algebra.PrimeFieldElement[B], S algebra
 			}
 			psk := shards[peer].PaillierSecretKey()
 			if psk == nil || !ppk.Equal(psk.Public()) {
-				x.Failf(tag+"/aux/peer-key", "%s: party %d stores a Paillier key for %d that is not %d's own public key", where, id, peer, peer)
+				st.failf(x, "aux/peer-key", "party %d stores a Paillier key for %d that is not %d's own public key", id, peer, peer)
 				continue
 			}
 			sv := shards[peer].Share().Value()
 			if len(cts) != len(sv) {
-				x.Failf(tag+"/aux/ciphertext-count", "%s: party %d stores %d ciphertexts for %d whose share has %d components", where, id, len(cts), peer, len(sv))
+				st.failf(x, "aux/ciphertext-count", "party %d stores %d ciphertexts for %d whose share has %d components", id, len(cts), peer, len(sv))
 				continue
 			}
 			threeQ := new(big.Int).Mul(g.q, big.NewInt(3))
 			for k, ct := range cts {
 				pt, err := psk.Decrypt(ct)
 				if err != nil {
-					x.Failf(tag+"/aux/decrypt", "%s: ciphertext %d of %d stored by %d does not decrypt: %v", where, k, peer, id, err)
+					st.failf(x, "aux/decrypt", "ciphertext %d of %d stored by %d does not decrypt: %v", k, peer, id, err)
 					continue
 				}
 				m := pt.Value().Big()
 				lam := conv.ToBig(sv[k])
 				if new(big.Int).Mod(m, g.q).Cmp(lam) != 0 {
-					x.Failf(tag+"/aux/encrypted-share", "%s: ciphertext %d of %d stored by %d decrypts to %x, not to the share component %x (mod q)", where, k, peer, id, m, lam)
+					st.failf(x, "aux/encrypted-share", "ciphertext %d of %d stored by %d decrypts to %x, not to the share component %x (mod q)", k, peer, id, m, lam)
 				}
 				if exact && m.Cmp(lam) != 0 {
-					x.Failf(tag+"/aux/encrypted-share-range", "%s: the dealer's ciphertext %d of %d stored by %d decrypts to %x, the share component is %x", where, k, peer, id, m, lam)
+					st.failf(x, "aux/encrypted-share-range", "the dealer's ciphertext %d of %d stored by %d decrypts to %x, the share component is %x", k, peer, id, m, lam)
 				}
 				if !exact && m.Cmp(threeQ) >= 0 {
-					x.Failf(tag+"/aux/encrypted-share-range", "%s: ciphertext %d of %d stored by %d decrypts to a lift >= 3q", where, k, peer, id)
+					st.failf(x, "aux/encrypted-share-range", "ciphertext %d of %d stored by %d decrypts to a lift >= 3q", k, peer, id)
 				}
 			}
 		}
 		// store / reload
 		b, err := sh.MarshalCBOR()
 		if err != nil {
-			x.Failf(tag+"/cbor/marshal", "%s: party %d: MarshalCBOR: %v", where, id, err)
+			st.failf(x, "cbor/marshal", "party %d: MarshalCBOR: %v", id, err)
 			continue
 		}
 		var r lindell17.Shard[P, B, S]
 		if err := r.UnmarshalCBOR(b); err != nil {
-			x.Failf(tag+"/cbor/unmarshal", "%s: party %d: UnmarshalCBOR of its own encoding: %v", where, id, err)
+			st.failf(x, "cbor/unmarshal", "party %d: UnmarshalCBOR of its own encoding: %v", id, err)
 			continue
 		}
 		if !r.Equal(sh) || !sh.Equal(&r) {
-			x.Failf(tag+"/cbor/not-equal", "%s: party %d: reloaded Lindell17 shard is not Equal to the stored one", where, id)
+			st.failf(x, "cbor/not-equal", "party %d: reloaded Lindell17 shard is not Equal to the stored one", id)
 		}
 	}
 	return pk
@@ -133,34 +133,32 @@ func l17Body[P curves.Point[P, B, S], B algebra.PrimeFieldElement[B], S algebra.
 		var pks [][]byte
 		for _, seed := range seeds() {
 			if !c.dkg {
-				tag := "lindell17-dealer"
-				where := fmt.Sprintf("%s/%s/%s/ids=%s/seed=%d", tag, g.name, c.e.Name, c.ids.Name, seed)
-				x.Case(where)
+				st := newSite("lindell17-dealer", fmt.Sprintf("lindell17-dealer/%s/%s/ids=%s/seed=%d", g.name, c.e.Name, c.ids.Name, seed), c.e.P)
+				x.Case(st.where)
 				shards, epk, err := proto.Lindell17Deal(curve, ac, l17KeyLen, seed)
 				if err != nil {
-					x.Failf(tag+"/run/failed", "%s: DealRandom failed: %v", where, err)
+					st.failf(x, "run/failed", "DealRandom failed: %v", err)
 					continue
 				}
-				pk := checkL17(x, g, tag, where, c.e.P, ids, ac, shards, nil, true)
+				pk := checkL17(x, g, st, c.e.P, ids, ac, shards, nil, true)
 				if epk == nil || !epk.Value().Equal(shards[ids[0]].PublicKeyValue()) {
-					x.Failf(tag+"/agree/returned-pk", "%s: the public key returned by the dealer is not the shards' key", where)
+					st.failf(x, "agree/returned-pk", "the public key returned by the dealer is not the shards' key")
 				}
 				pks = append(pks, pk)
 				continue
 			}
-			tag := "lindell17-dkg"
-			where := fmt.Sprintf("%s/%s/%s/ids=%s/seed=%d", tag, g.name, c.e.Name, c.ids.Name, seed)
-			x.Case(where)
+			st := newSite("lindell17-dkg", fmt.Sprintf("lindell17-dkg/%s/%s/ids=%s/seed=%d", g.name, c.e.Name, c.ids.Name, seed), c.e.P)
+			x.Case(st.where)
 			base, err := proto.Deal(g.group, ac, seed, "c03-l17")
 			if err != nil {
 				panic(engine.HarnessError{Msg: "base dealing failed: " + err.Error()})
 			}
 			shards, err := proto.Lindell17DKGRounds(ids, base, curve, l17KeyLen, fiatshamir.Name, seed)
 			if err != nil {
-				x.Failf(tag+"/run/failed", "%s: honest Lindell17 DKG (round by round) failed: %v", where, err)
+				st.failf(x, "run/failed", "honest Lindell17 DKG (round by round) failed: %v", err)
 				continue
 			}
-			pk := checkL17(x, g, tag, where, c.e.P, ids, ac, shards, base, false)
+			pk := checkL17(x, g, st, c.e.P, ids, ac, shards, base, false)
 			pks = append(pks, pk)
 			res, info := proto.Lindell17DKGRun(x, schednet.New(ids...), ids, base, curve, l17KeyLen, fiatshamir.Name, seed)
 			if info.HarnessErr != "" {
@@ -172,7 +170,7 @@ func l17Body[P curves.Point[P, B, S], B algebra.PrimeFieldElement[B], S algebra.
 				r := res[id]
 				if r == nil || !r.Done || r.Err != nil || r.Panic != "" || r.Starved || r.Out == nil {
 					bad = true
-					x.Failf(tag+"/runner/failed", "%s: party %d did not finish the honest run over routers: err=%v panic=%s deadlock=%s", where, id, errOf(r), panicOf(r), info.Deadlock)
+					st.failf(x, "runner/failed", "party %d did not finish the honest run over routers: err=%v panic=%s deadlock=%s", id, errOf(r), panicOf(r), info.Deadlock)
 					continue
 				}
 				out[id] = r.Out
@@ -180,9 +178,9 @@ func l17Body[P curves.Point[P, B, S], B algebra.PrimeFieldElement[B], S algebra.
 			if bad {
 				continue
 			}
-			rpk := checkL17(x, g, tag, where+"/runner", c.e.P, ids, ac, out, base, false)
+			rpk := checkL17(x, g, st.sub("/runner"), c.e.P, ids, ac, out, base, false)
 			if string(rpk) != string(pk) {
-				x.Failf(tag+"/api/pk-differs", "%s: runner pk=%x, round-by-round pk=%x", where, rpk, pk)
+				st.failf(x, "api/pk-differs", "runner pk=%x, round-by-round pk=%x", rpk, pk)
 			}
 		}
 		if len(pks) == 2 && pks[0] != nil && string(pks[0]) == string(pks[1]) {
@@ -190,7 +188,6 @@ func l17Body[P curves.Point[P, B, S], B algebra.PrimeFieldElement[B], S algebra.
 		}
 	}
 }
-
 
 func lindell17Sections() {
 	var deal []l17cfg
